@@ -70,6 +70,10 @@ impl Check for New {
 
         // the name of the instance of the data type in the symbol table, the instance must exists
         // already
+        // make sure the instance of the expected type exists (it is created from its template on
+        // first use), so that acceptance does not depend on whether the type was mentioned before
+        expected.check(&Some(self.span), symbol_table)?;
+
         let type_name = name.clone() + &type_args.print_to_string(None);
         let expected_dtors = match symbol_table.types.get(&type_name) {
             Some((Polarity::Codata, _type_args, dtors)) => dtors.clone(),
